@@ -122,6 +122,43 @@ theorem reachable_collect_safe (fixed : Bool) (ops : List Op)
   let ⟨s', hs'⟩ := collect_total' _ t g.wf
   ⟨s', hs', fun _ _ hop hr => collect_safe' g.wf g.inv g.homed g.grootsGlobal ht hs' hop hr⟩
 
+/-! ### Mark bits. `Gc::mark` treats an object whose mark bit is set as visited and does not look
+inside it, so the safety of a collection depends on the PREVIOUS collections having cleared the bits
+of everything they marked. `collectM` is the collection with the bits as explicit state
+(`collect = collectM` started from clean bits). -/
+
+/-- A collection leaves no mark bit in any heap it swept (the collecting heap and all descendants). -/
+theorem collect_resets_marks {s s' : State} {t : HeapId} {marked marked' : List Nat}
+    (h : collectM s t marked = some (s', marked')) : ∀ i ∈ marked', inSwept s t i = false :=
+  collectM_resets_swept h
+
+/-- Under the machine invariant a collection started with clean bits marks nothing outside the
+    heaps it sweeps: it equals the bit-free `collect` and ends with ALL bits clean. -/
+theorem collect_keeps_marks_clean {fixed : Bool} {s : State} (g : Good fixed s) (t : HeapId) :
+    ∃ s', collect s t = some s' ∧ collectM s t [] = some (s', []) :=
+  collectM_clean g t
+
+/-- Hence in every reachable state of a history (any operations, any number of collections, no
+    promotion) all mark bits are clear: the machine with explicit mark bits and the bit-free one
+    agree, and `reachable_collect_safe` applies to every collection of the history. -/
+theorem reachable_marks_clean (fixed : Bool) (ops : List Op)
+    (h : ∀ op ∈ ops, op.isPromote = false) :
+    runM fixed (init, []) ops = (run fixed init ops, []) :=
+  runM_clean ops init (init_good fixed) h
+
+/-- Why it matters: the same heap with ONE stale mark bit (on the cell 1, e.g. left by an ancestor's
+    collection that did not sweep this heap) — the collection frees the value 2 the cell points to,
+    although it is reachable; with clean bits it frees nothing. -/
+def staleDemo : State := State.ofList [
+  ⟨[], [0], .thread, [1]⟩,
+  ⟨[0], [0], .cell, [2]⟩,
+  ⟨[0], [0], .plain, []⟩ ]
+
+theorem stale_mark_bit_breaks_safety_fails :
+    freedByM staleDemo [0] [1] = some [2] ∧ freedByM staleDemo [0] [] = some [] ∧
+    freedBy staleDemo [0] = some [] := by
+  decide
+
 /-- The history of D1 on the machine: a thread builds a cell, the module value is promoted, the
     thread stores a fresh value into the promoted cell and drops its own handle to the value. -/
 def opsD1 : List Op :=
